@@ -6,7 +6,7 @@ import itertools
 from typing import Dict, List, Optional, Set
 
 from . import astu
-from .facts import Run, normal
+from .facts import Run, cond_pol, normal
 from .interp import Ctx, analyse_method
 from .model import AnalysisError, iter_functions
 from .report import RuleResult
@@ -109,10 +109,12 @@ def rule_FV(run: Run) -> RuleResult:
     opt = repo.cls("Option")
     nec = ("presence must be decided by KeyError / dotted_key_exists only: a truthiness test or "
            "`or`-default on the looked-up value treats 0, False, '', [] and None as absent (C04)")
-    for name in ("evaluate", "validate", "keys", "explain", "_enforce_domain"):
+    reach_all = astu.reachable_self_methods(opt, ["evaluate", "validate", "keys", "explain"])
+    names = ["evaluate", "validate", "keys", "explain"] + sorted(n for n in reach_all if n not in ("evaluate", "validate", "keys", "explain"))
+    for name in names:
         fn = opt.methods.get(name)
         if fn is None:
-            if name == "_enforce_domain":
+            if name not in ("evaluate", "validate", "keys", "explain"):
                 continue
             raise AnalysisError(f"Option.{name} not found")
         vals: Set[str] = set()
@@ -123,7 +125,7 @@ def rule_FV(run: Run) -> RuleResult:
                     for t in n.targets:
                         if isinstance(t, ast.Name):
                             vals.add(t.id)
-        if name == "_enforce_domain":
+        if name == "_enforce_domain" or (name not in ("evaluate", "validate", "keys", "explain") and astu.param_names(fn) and astu.param_names(fn)[0] == "value"):
             vals.add(astu.param_names(fn)[0])
         bad = []
         for e in _bool_contexts(fn):
@@ -138,9 +140,10 @@ def rule_FV(run: Run) -> RuleResult:
                 f"value names {sorted(vals)}" + (f"; truthiness use at line {bad[0].lineno}: {ast.unparse(bad[0])[:60]}" if bad else ""), nec)
         # presence decided by KeyError or dotted_key_exists
         if name in ("evaluate", "validate", "keys", "explain"):
-            uses_exists = any(astu.short_name(c) == "dotted_key_exists" for c in astu.calls_in(fn))
-            catches = any(isinstance(h, ast.ExceptHandler) and h.type is not None and "KeyError" in ast.unparse(h.type) for h in ast.walk(fn))
-            gets = [c for c in astu.calls_in(fn) if astu.short_name(c) == "get" and isinstance(c.func, ast.Attribute) and "options" in ast.unparse(c.func.value)]
+            bodies = list(astu.reachable_self_methods(opt, [name]).values())
+            uses_exists = any(astu.short_name(c) == "dotted_key_exists" for b in bodies for c in astu.calls_in(b))
+            catches = any(isinstance(h, ast.ExceptHandler) and h.type is not None and "KeyError" in ast.unparse(h.type) for b in bodies for h in ast.walk(b))
+            gets = [c for b in bodies for c in astu.calls_in(b) if astu.short_name(c) == "get" and isinstance(c.func, ast.Attribute) and "options" in ast.unparse(c.func.value)]
             ok = (uses_exists or catches) and not gets
             res.add(f"labrea.option.Option.{name}:presence decided by KeyError/dotted_key_exists", ok, opt.module.relpath, fn.lineno,
                     f"dotted_key_exists={uses_exists} except-KeyError={catches} options.get calls={len(gets)}", nec)
@@ -169,9 +172,8 @@ def rule_AB(run: Run) -> RuleResult:
                 n += 1
                 conds = p.conds[: e.ncond]
                 absent = any(c[0].startswith("except KeyError") or c[0].startswith("except (KeyError") for c in conds) or \
-                    any("dotted_key_exists(Child(key),options)" in c[2] and (c[1] != c[2].startswith("unop:Not(")) is False for c in conds)
-                has_default = any(("cmp:Is(Child(default),Const(MISSING))" in c[2] and c[1] is False) or
-                                  ("cmp:IsNot(Child(default),Const(MISSING))" in c[2] and c[1] is True) for c in conds)
+                    cond_pol(conds, "call:confectioner.templating.dotted_key_exists(Child(key),options)") is False
+                has_default = cond_pol(conds, "cmp:Is(Child(default),Const(MISSING))") is False
                 # the absent branch must be entered by the failed lookup of the
                 # option's own key only (not by a failed resolution of its value)
                 idx = p.events.index(e)
@@ -541,7 +543,7 @@ def rule_PO(run: Run) -> RuleResult:
             continue
         g = comp[0].generators[0]
         var = g.target.id if isinstance(g.target, ast.Name) else "?"
-        cond = g.ifs[0]
+        cond = astu.inline_helpers(astu.expand_locals(g.ifs[0], astu.single_assign_map(fn), keep=frozenset(astu.param_names(fn))), astu.class_resolver(repo, wo))
         atoms: List[str] = []
         _atoms(cond, atoms)
         optp = astu.param_names(fn)[0]
